@@ -170,12 +170,24 @@ def entry_points():
     eps['init:hierarchical'] = init_hier
     eps['init:filter'] = lambda seed: _filter_posterior() \
         .sample_initial_parameters(n_samples=2, seed=seed)
+    eps['init:filter3'] = lambda seed: _filter_posterior() \
+        .sample_initial_parameters(n_samples=3, seed=seed)
+
+    def init_hier_special(seed):
+        # no individual-level entries at all: pooled and heterogeneous dimensions
+        spec = rp.Comp([rp.P(1), rp.H(1), rp.P(1)])
+        hl = hier.build(hier.make_case(spec, 2, 0))
+        post = chi.HierarchicalLogPosterior(hl, pints.ComposedLogPrior(*[
+            pints.UniformLogPrior(0.2, 2) for _ in range(4)]))
+        return post.sample_initial_parameters(n_samples=2, seed=seed)
+    eps['init:hier_special'] = init_hier_special
     return eps
 
 
 DETERMINISTIC = {'pop:P'}
 # entry points all of whose output cells are separate continuous draws
-DISTINCT_CELLS = {'err:G', 'err:M', 'err:CM', 'err:LN', 'pop:G', 'pop:LNnc',
+DISTINCT_CELLS = {'init:posterior', 'init:hierarchical', 'init:filter',
+                  'init:filter3', 'init:hier_special', 'err:G', 'err:M', 'err:CM', 'err:LN', 'pop:G', 'pop:LNnc',
                   'pop:TG', 'pop:G3same', 'pop:LN3same', 'pop:TG3same',
                   'pop:redTG2', 'pred1', 'pred2', 'pred1rep', 'pred2rep',
                   'poppred', 'poppred_rep'}
